@@ -152,6 +152,12 @@ def run(ctx):
         ctx.sample({k: ln[k] for k in ("shape", "proj", "runner_checked", "outcome")})
     bad = ctx.tlc_validate_sharded("Trace_C20", "Trace.cfg", [{k: v for k, v in ln.items() if k != "note"} for ln in lines])
     by = {ln["oid"]: ln for ln in lines}
+    good = [{k: v for k, v in ln.items() if k != "note"} for ln in lines if ln["oid"] not in bad]
+    ctx.selftest("Trace_C20", "Trace.cfg", good, [
+        ("proj", lambda l: dict(l, proj=dict(l["proj"], ptodis="2" if l["proj"]["ptodis"] != "2" else "1"))),
+        ("caller", lambda l: dict(l, caller_unchanged_by_update=False)),
+        ("idempotent", lambda l: dict(l, idempotent=False)),
+        ("echo", lambda l: dict(l, echo_cards=False) if l["runner_checked"] else None)])
     for oid, clause in bad.items():
         ln = by[oid]
         s = ln["shape"]
